@@ -464,6 +464,24 @@ def spec_builtin(eng, it, name, args, kwargs):
         if isinstance(args[0], VTable):
             return VBool(table_has(st, args[0], it.idx(args[1])))
         return VBool(it.rec_has(it.concretize(args[0]), args[1].s))
+    if name == 'has_keys':
+        rec = it.concretize(args[0])
+        return VBool(z3.And([it.rec_has(rec, a.s) for a in args[1:]]))
+    if name == 'table_same_except':
+        # table_same_except(tb, key...): the dict differs from its old() state at most at the given keys
+        tb = it.concretize(args[0])
+        dom, val = table_dom(st, tb), table_val(st, tb)
+        st.heap_stack.append(st.old)
+        try:
+            dom0, val0 = table_dom(st, tb), table_val(st, tb)
+        finally:
+            st.heap_stack.pop()
+        for a in args[1:]:
+            k = it.idx(a)
+            dom0 = z3.Store(dom0, k, z3.Select(dom, k))
+            val0 = z3.Store(val0, k, z3.Select(val, k))
+        kq = z3.Int('ts!k')
+        return VBool(z3.And(dom == dom0, z3.ForAll([kq], z3.Implies(z3.Select(dom, kq), z3.Select(val, kq) == z3.Select(val0, kq)))))
     if name == 'typeis':
         v = it.concretize(args[0]) if not isinstance(args[0], VUnion) else args[0]
         cname = args[1].s
